@@ -19,7 +19,9 @@ struct Outcome {
   int status = 0;                                    // 0 ok, 1 violation, 2 known finding (as-built form matches, property form does not), 3 skipped
   std::string finding;                               // known-finding key for status 2
   std::string note;
+  bool directed = false;                             // evaluated under a directed rounding mode (judged with DIRECTED_K_FACTOR * K)
 };
+constexpr double DIRECTED_K_FACTOR = 16;
 
 struct CaseCtx;  // opaque evaluation context
 struct Ev {
